@@ -115,7 +115,7 @@ def unit_reinforce(item):
     ref_scaler = RefScaler(scale)
     ema, ema_w = None, None
     bl_policy = copy.deepcopy(policy).eval()
-    for step in range(3):
+    for step in range(4 if bname.startswith("warmup") else 3):  # warm-up: one callback beyond n_epochs
         if bname.startswith("warmup") and step > 0:
             model.baseline.epoch_callback(policy, env=env, batch_size=2, device="cpu", epoch=step - 1, dataset_size=2)
         b = batch.clone()
@@ -297,55 +297,78 @@ class _Opt:
 
 
 def unit_ppo(item):
+    """PPO.shared_step with a REAL optimiser (plain SGD, large step) and several inner epochs, so that from the second
+    inner step on the probability ratios leave the clip range.  Every inner-step loss handed to manual_backward is
+    captured together with a snapshot of the parameters it was computed with; the reference objective is rebuilt
+    from scratch for each of them (same rollout, snapshot parameters) and value + gradients are compared."""
     from rl4co.models.rl import PPO
+    from rl4co.models.rl.common.critic import CriticNetwork
 
     _, skey, B, clip, ent, norm_adv, seed = item
     p = Partial()
     spec, env, batch, ids = batch_of(skey, B, seed)
     policy = make("am_inst", env, 0, train=True)
-    from rl4co.models.rl.common.critic import CriticNetwork
-
-    model = PPO(env, policy, critic=CriticNetwork(copy.deepcopy(policy.encoder), embed_dim=16, hidden_dim=32), clip_range=clip, ppo_epochs=1, mini_batch_size=B, entropy_lambda=ent, normalize_adv=norm_adv, max_grad_norm=None)
+    critic = CriticNetwork(copy.deepcopy(policy.encoder), embed_dim=16, hidden_dim=32)
+    n_inner = 3
+    model = PPO(env, policy, critic=critic, clip_range=clip, ppo_epochs=n_inner, mini_batch_size=B, entropy_lambda=ent, normalize_adv=norm_adv, max_grad_norm=None)
+    allp = list(policy.parameters()) + list(critic.parameters())
+    opt = torch.optim.SGD(allp, lr=0.5)
     captured = []
-    model.optimizers = lambda: _Opt()
-    model.manual_backward = lambda loss: captured.append(loss)
+
+    def manual_backward(loss):
+        g = grads(loss, allp)
+        captured.append((float(loss), [x.clone() for x in g], copy.deepcopy(policy.state_dict()), copy.deepcopy(critic.state_dict())))
+        loss.backward()
+
+    model.optimizers = lambda: opt
+    model.manual_backward = manual_backward
     model.clip_gradients = lambda *a, **k: None
     cfg = f"ppo|clip={clip}|ent={ent}|norm={norm_adv}"
     env_name = skey.partition(":")[0]
     rec = dict(kind="ppo", spec=skey, B=B, clip=clip, ent=ent, norm_adv=norm_adv, instances=ids)
+    init_policy, init_critic = copy.deepcopy(policy.state_dict()), copy.deepcopy(critic.state_dict())
     try:
         capture_shared_step(model, batch.clone())
     except Exception as e:  # noqa: BLE001
         p.violation(sig(env_name, cfg, f"crash:{type(e).__name__}", f"B={B}"), rec, f"PPO {cfg} B={B}: shared_step crashed: {type(e).__name__}: {str(e)[:100]}")
         return p
-    p.add(states=1, evaluations=1, transitions=1)
-    p.case(f"{skey}|{cfg}|{B}")
-    lib = captured[-1]
-    # reference: same rollout (same RNG answers), recomputed from scratch
+    # the rollout PPO collected (old actions / log-probs / rewards), recomputed with the INITIAL parameters
+    ref_pol = make("am_inst", env, 0, train=True)
+    ref_cri = CriticNetwork(copy.deepcopy(ref_pol.encoder), embed_dim=16, hidden_dim=32)
+    ref_pol.load_state_dict(init_policy)
+    ref_cri.load_state_dict(init_critic)
     with torch.no_grad(), Seam().active():
         td = env.reset(batch.clone())
-        old = policy(td.clone(), env, phase="train")
-    new = policy(td.clone(), env, actions=old["actions"], return_entropy=True, return_sum_log_likelihood=False)
-    ratio0 = torch.exp(new["log_likelihood"].sum(-1) - old["log_likelihood"])
-    if float((ratio0 - 1).abs().max()) > 1e-4:
-        p.violation(sig(env_name, cfg, "ratio_not_one", f"B={B}"), rec, f"PPO: probability ratio at the first inner step is {ratio0.tolist()}, expected 1")
-    ratio = ratio0.view(-1, 1)
-    rew = old["reward"].view(-1, 1)
-    value = model.critic(td)
-    adv = rew - value.detach()
-    if norm_adv:
-        adv = (adv - adv.mean()) / (adv.std() + 1e-8)
-    surr = -torch.min(ratio * adv, torch.clamp(ratio, 1 - clip, 1 + clip) * adv).mean()
-    ref = surr + 0.5 * F.huber_loss(value, rew) - ent * new["entropy"].mean()
-    if abs(float(lib) - float(ref)) > 1e-5 * (1 + abs(float(ref))):
-        p.violation(sig(env_name, cfg, "loss", f"B={B}"), rec, f"PPO {cfg} B={B}: loss {float(lib)} vs reference clipped surrogate {float(ref)}")
-        return p
-    allp = list(policy.parameters()) + list(model.critic.parameters())
-    num, den = grad_diff(grads(lib, allp), grads(ref, allp))
-    if num > 1e-5 + 1e-4 * den:
-        p.violation(sig(env_name, cfg, "gradient", f"B={B}"), rec, f"PPO {cfg} B={B}: gradient differs from the reference objective (max abs diff {num})")
-    p.outcome(f"{cfg}|{round(float(ref), 4)}")
-    p.sample(dict(part="ppo", env=skey, batch=ids, clip=clip, entropy_lambda=ent, normalize_adv=norm_adv), cap=1)
+        old = ref_pol(td.clone(), env, phase="train")
+    refp = list(ref_pol.parameters()) + list(ref_cri.parameters())
+    outside = 0
+    for k, (lib_loss, lib_g, sp, sc) in enumerate(captured):
+        ref_pol.load_state_dict(sp)
+        ref_cri.load_state_dict(sc)
+        new = ref_pol(td.clone(), env, actions=old["actions"], return_entropy=True, return_sum_log_likelihood=False)
+        ratio = torch.exp(new["log_likelihood"].sum(-1) - old["log_likelihood"]).view(-1, 1)
+        if k == 0 and float((ratio - 1).abs().max()) > 1e-4:
+            p.violation(sig(env_name, cfg, "ratio_not_one", f"B={B}"), rec, f"PPO: probability ratio at the first inner step is {ratio.flatten().tolist()}, expected 1")
+        outside += int(((ratio < 1 - clip) | (ratio > 1 + clip)).sum())
+        rew = old["reward"].view(-1, 1)
+        value = ref_cri(td)
+        adv = rew - value.detach()
+        if norm_adv:
+            adv = (adv - adv.mean()) / (adv.std() + 1e-8)
+        surr = -torch.min(ratio * adv, torch.clamp(ratio, 1 - clip, 1 + clip) * adv).mean()
+        ref = surr + 0.5 * F.huber_loss(value, rew) - ent * new["entropy"].mean()
+        p.add(states=1, evaluations=1, transitions=1)
+        p.case(f"{skey}|{cfg}|{B}|{k}")
+        trig = "first_inner_step" if k == 0 else "later_inner_step"
+        if abs(lib_loss - float(ref)) > 1e-4 * (1 + abs(float(ref))):
+            p.violation(sig(env_name, cfg, "loss", trig), dict(rec, inner_step=k), f"PPO {cfg} B={B} inner step {k}: loss {lib_loss} vs reference clipped surrogate {float(ref)} (ratios {[round(x, 3) for x in ratio.flatten().tolist()]})")
+            continue
+        num, den = grad_diff(lib_g, grads(ref, refp))
+        if num > 1e-4 + 1e-3 * den:
+            p.violation(sig(env_name, cfg, "gradient", trig), dict(rec, inner_step=k), f"PPO {cfg} B={B} inner step {k}: gradient differs from the reference objective (max abs diff {num}, scale {den})")
+        p.outcome(f"{cfg}|{k}|{round(float(ref), 3)}")
+    p.add(ratios_outside_clip_range=outside)
+    p.sample(dict(part="ppo", env=skey, batch=ids, clip=clip, entropy_lambda=ent, normalize_adv=norm_adv, inner_steps=len(captured), ratios_outside_clip_range=outside), cap=1)
     return p
 
 
@@ -360,7 +383,7 @@ def main(tier):
         "policies: tiny attention models with instance normalisation in train() mode; rollouts fixed by the RNG seam's default answers",
         "the rollout baseline is exercised through the `extra` values a wrapped dataset carries (greedy rewards of a frozen copy of the policy)",
         "SymNCO's invariance loss (cosine similarity of projected embeddings) is not a policy-gradient surrogate and is not judged",
-        "PPO: one inner epoch with mini-batch = batch, optimiser stubbed out (gradients are compared, no update is applied)",
+        "PPO: three inner epochs with mini-batch = batch and a real SGD optimiser (lr 0.5) so that later inner steps see ratios outside the clip range; each captured inner-step loss is re-derived from a parameter snapshot",
     ]
     seed = seed_from_env()
     items = []
